@@ -94,8 +94,9 @@ typedef struct EncodeContext {
     // Picture Decision Reorder Queue
     PictureDecisionReorderEntry **picture_decision_reorder_queue;
     uint32_t                      picture_decision_reorder_queue_head_index;
-    //hold undisplayed frame for show existing frame. It's ordered with pts Descend.
+    //hold undisplayed frame for show existing frame. It's ordered by display order (picture number), descending.
     EbObjectWrapper *picture_decision_undisplayed_queue[REF_FRAMES];
+    uint64_t         picture_decision_undisplayed_queue_pic_num[REF_FRAMES];
     uint32_t         picture_decision_undisplayed_queue_count;
     // Picture Manager Pre-Assignment Buffer
     uint32_t          pre_assignment_buffer_intra_count;
